@@ -30,6 +30,19 @@ def own_methods(corpus, ci: ClassInfo) -> Dict[str, FuncInfo]:
     return out
 
 
+def _max_tries(module, mt):
+    """literal value of a max_tries= argument; a module-level name bound once to a literal counts as that literal"""
+    for _ in range(4):
+        if isinstance(mt, ast.Name) and mt.id in module.assigns:
+            binds = [st for st in module.tree.body if isinstance(st, (ast.Assign, ast.AnnAssign, ast.AugAssign)) for t in (st.targets if isinstance(st, ast.Assign) else [st.target]) if isinstance(t, ast.Name) and t.id == mt.id]
+            if len(binds) != 1:
+                return None
+            mt = module.assigns[mt.id]
+        else:
+            break
+    return mt.value if isinstance(mt, ast.Constant) else None
+
+
 def resolve_decorator(corpus, module, d, depth=0):
     """Return a description dict for a decorator expression:
     {'kind': 'backoff'|'requires_auth'|'other', 'max_tries': int|None, 'name': str}"""
@@ -40,10 +53,10 @@ def resolve_decorator(corpus, module, d, depth=0):
         fn = dotted(d.func) or ''
         if fn == 'backoff.on_exception':
             mt = kwarg(d, 'max_tries')
-            return {'kind': 'backoff', 'name': name, 'max_tries': mt.value if isinstance(mt, ast.Constant) else None, 'call': d}
+            return {'kind': 'backoff', 'name': name, 'max_tries': _max_tries(module, mt), 'call': d}
         if fn in ('functools.partial', 'partial') and d.args and (dotted(d.args[0]) or '') == 'backoff.on_exception':
             mt = kwarg(d, 'max_tries')
-            return {'kind': 'backoff-partial', 'name': name, 'max_tries': mt.value if isinstance(mt, ast.Constant) else None, 'call': d}
+            return {'kind': 'backoff-partial', 'name': name, 'max_tries': _max_tries(module, mt), 'call': d}
         # call of a module-level alias (e.g. _backoff_decorator(on_backoff=[...]))
         if isinstance(d.func, ast.Name) and d.func.id in module.assigns:
             inner = resolve_decorator(corpus, module, module.assigns[d.func.id], depth + 1)
@@ -53,7 +66,7 @@ def resolve_decorator(corpus, module, d, depth=0):
                 r['kind'] = 'backoff'
                 r['name'] = name
                 if mt is not None:
-                    r['max_tries'] = mt.value if isinstance(mt, ast.Constant) else None
+                    r['max_tries'] = _max_tries(module, mt)
                 r['outer_call'] = d
                 return r
         return {'kind': 'other', 'name': name}
